@@ -1,4 +1,5 @@
 from datetime import datetime
+from io import BytesIO
 from pathlib import Path
 from typing import IO, List, Optional, Type, Union
 
@@ -382,27 +383,38 @@ class Tdf:
             comment=comment,
         )
 
+        # serialise the entry and the block, and check the remaining slots,
+        # before touching the file or the in-memory table: a block or comment
+        # that can't be encoded must leave the file exactly as it was
+        entry_buffer = BytesIO()
+        new_entry._write(entry_buffer)
+        block_buffer = BytesIO()
+        newBlock._write(block_buffer)
+
+        if any(
+            entry.type != BlockType.unusedSlot
+            for entry in self.entries[unusedBlockPos + 1 :]
+        ):
+            raise IOError("All unused slots must be at the end of the file")
+
         # replace the entry
         self.entries[unusedBlockPos] = new_entry
 
         # write new entry
         self.handler.seek(64 + 288 * unusedBlockPos, 0)
-        new_entry._write(self.handler)
+        self.handler.write(entry_buffer.getvalue())
 
         # update all unused slots's offset
         for n, entry in enumerate(
             self.entries[unusedBlockPos + 1 :], start=unusedBlockPos + 1
         ):
-            if entry.type == BlockType.unusedSlot:
-                entry.offset = new_entry.offset + new_entry.size
-                self.handler.seek(64 + 288 * n, 0)
-                entry._write(self.handler)
-            else:
-                raise IOError("All unused slots must be at the end of the file")
+            entry.offset = new_entry.offset + new_entry.size
+            self.handler.seek(64 + 288 * n, 0)
+            entry._write(self.handler)
 
         # write new block
         self.handler.seek(new_entry.offset, 0)
-        newBlock._write(self.handler)
+        self.handler.write(block_buffer.getvalue())
 
         # ensure the file is the correct size
         # and that the changes are written to disk
